@@ -109,6 +109,14 @@ PairLattice ==
     \cup {RespCase("GetAssertion", [GaRespMin EXCEPT !.user = <<u>>], BIG, "pair-lattice-nested") : u \in TwoAtATime("User", F, FALSE)}
     \cup {RespCase("GetInfo", [GiMin EXCEPT !.options = <<o>>], BIG, "pair-lattice-nested") : o \in TwoAtATime("GetInfoOptions", F, FALSE)}
 
-MC_Cases == ValueLattice \cup PairLattice \cup BoolCases \cup GetInfoCases \cup McCases \cup GaCases \cup CpCases \cup CmCases \cup LbCases \cup BodylessCases
+\* every TRIPLE of members at the upper ends of their types
+TripleLattice ==
+    UNION {{RespCase(k, v, BIG, "triple-lattice") : v \in ThreeAtATime(RespSchema(k), F, FALSE)} :
+              k \in {"MakeCredential", "GetAssertion", "ClientPin", "CredentialManagement"}}
+TripleLatticeBig ==      \* some 2000 triples of the 24 GetInfo members: the thorough tier
+    {RespCase("GetInfo", v, BIG, "triple-lattice") : v \in ThreeAtATime("GetInfoResp", F, FALSE)}
+
+MC_Cases == TripleLattice \cup ValueLattice \cup PairLattice \cup BoolCases \cup GetInfoCases \cup McCases \cup GaCases \cup CpCases \cup CmCases \cup LbCases \cup BodylessCases
             \cup LatticeCases \cup TypePairs
+MC_CasesDeep == MC_Cases \cup TripleLatticeBig
 =============================================================================
